@@ -27,7 +27,7 @@ STYLES = ["camelCase", "snake_case", "PascalCase", "SCREAMING_CASE", "_lead", "x
           "mixed_Snake_Case", "ALLCAPS", "a"]
 CONTROLS = ["name", "value", "fora", "types", "selfish", "Selfie", "asyncx", "tryit", "boxed", "matcher"]
 POSITIONS = ["response_field", "alias", "variable", "input_field", "oneof_member", "enum_value", "id_field", "optional_id_alias",
-             "alias_of_own_rust_name", "recursive_input_field"]
+             "alias_of_own_rust_name", "recursive_input_field", "object_field"]
 
 
 def rust_field_name(name):
@@ -70,6 +70,11 @@ def build(name, position):
     elif position == "input_field":
         types.append(gql.inp("In", [(name, "Int"), ("plain", "Int")]))
         vars_ = [("i", "In", None)]
+    elif position == "object_field":
+        # the name also becomes part of a generated TYPE name (the nested selection's struct)
+        types.append(gql.obj("Sub", [("x", "Int")]))
+        qfields.append(FieldDef(name, "[Sub!]"))
+        sel = [Field(name, [Field("x")])]
     elif position == "recursive_input_field":
         # the field closes a cycle (it gets an indirection): escaping and indirection have to compose
         types.append(gql.inp("In", [(name, "In"), ("plain", "Int")]))
@@ -98,10 +103,10 @@ def run(tier):
                 variants.append((f, "keyword_variant"))
     mods = []
     for name, klass in names + variants:
-        for pos in (POSITIONS if klass != "keyword_variant" else (["variable", "input_field", "response_field", "id_field", "alias_of_own_rust_name", "recursive_input_field"] if tier == "quick" else POSITIONS)):
+        for pos in (POSITIONS if klass != "keyword_variant" else (["variable", "input_field", "response_field", "id_field", "alias_of_own_rust_name", "recursive_input_field", "object_field"] if tier == "quick" else POSITIONS)):
             if pos == "enum_value" and name in ("true", "false", "null"):
                 continue  # not GraphQL enum values
-            if name.startswith("__") and pos in ("response_field", "input_field", "oneof_member", "enum_value", "id_field", "recursive_input_field"):
+            if name.startswith("__") and pos in ("response_field", "input_field", "oneof_member", "enum_value", "id_field", "recursive_input_field", "object_field"):
                 continue  # `__` names are reserved for introspection in schemas
             if pos == "alias_of_own_rust_name" and (rust_field_name(name) == name or not re.match(r"^[A-Za-z][A-Za-z0-9_]*$", rust_field_name(name))):
                 continue  # nothing to tell apart
@@ -149,6 +154,8 @@ def run(tier):
             reqs.append({"case": m["case"], "module": "op", "what": "vars", "arg": {n: 7}})
         elif m["pos"] == "input_field":
             reqs.append({"case": m["case"], "module": "op", "what": "vars", "arg": {"i": {n: 7, "plain": 1}}})
+        elif m["pos"] == "object_field":
+            reqs.append({"case": m["case"], "module": "op", "what": "resp", "arg": {n: [{"x": 1}]}})
         elif m["pos"] == "recursive_input_field":
             reqs.append({"case": m["case"], "module": "op", "what": "vars", "arg": {"i": {n: {"plain": 1}, "plain": 2}}})
         elif m["pos"] == "oneof_member":
@@ -173,6 +180,8 @@ def run(tier):
             good = out.get("variables") == {n: 7}
         elif m["pos"] == "input_field":
             good = out.get("variables") == {"i": {n: 7, "plain": 1}}
+        elif m["pos"] == "object_field":
+            good = out == {n: [{"x": 1}]}
         elif m["pos"] == "recursive_input_field":
             good = out.get("variables") == {"i": {n: {n: None, "plain": 1}, "plain": 2}}
         elif m["pos"] == "oneof_member":
@@ -185,7 +194,7 @@ def run(tier):
     cov = {
         "evaluations": len(mods) + len(reqs), "distinct_nontrivial": sum(1 for m in mods if m["class"] != "control"),
         "rule": "one generated module per (name, position): %d keywords (strict, reserved and weak, editions 2015-2024), %d case "
-                "styles, %d non-keyword controls x 10 positions (recursive input field, response field, alias, alias of the field that is named like the alias's own Rust field, variable, input field, @oneOf member, enum value, ID-typed field, alias of an optional ID; minus combinations GraphQL itself forbids; the positions whose name lives in the schema also with the schema rendered as introspection JSON), plus every keyword in "
+                "styles, %d non-keyword controls x 11 positions (object-typed list field, recursive input field, response field, alias, alias of the field that is named like the alias's own Rust field, variable, input field, @oneOf member, enum value, ID-typed field, alias of an optional ID; minus combinations GraphQL itself forbids; the positions whose name lives in the schema also with the schema rendered as introspection JSON), plus every keyword in "
                 "other case styles (Capitalised, _leading; thorough also UPPER and trailing_) at the positions that snake_case it; every module is "
                 "compiled and one value is sent through the named position; non-trivial = keyword or style names" %
                 (len(KEYWORDS), len(STYLES), len(CONTROLS)),
